@@ -52,13 +52,30 @@ RELEASE_RULE = ("1-3 real clients of mixed transports (RTSP/TCP, RTSP/UDP, multi
                 "connection counters relative to their values before the first attach, which connections have ended (EOF at the "
                 "client), media.Count; the oracle ok_release demands the release specification's run exactly.")
 
+def cycle_cases(rng, thorough):
+    """repeated use cycles on one live stream (trgen.gen_cycle_case): for every transport that can be stopped
+    mid-stream a join / leave / join history, ending by the last client leaving or by the stream ending while it is
+    attached; the multicast proxy (one consumer of the stream on behalf of the members, started by the first
+    member, stopped by the last) with both endings and three cycles in every run"""
+    out = []
+    for i, k in enumerate((T.TCP, T.UDP, T.WSRTSP, T.WSP, T.WSFLV)):
+        out.append(T.gen_cycle_case(rng, False, [k, k], max_pkts=8, last_stops=(i % 2 == 0) ^ (rng.random() < 0.5)))
+    out.append(T.gen_cycle_case(rng, False, [T.MCAST, T.MCAST], max_pkts=8, last_stops=True))
+    out.append(T.gen_cycle_case(rng, False, [T.MCAST, T.MCAST], max_pkts=8, last_stops=False))
+    out.append(T.gen_cycle_case(rng, False, [T.MCAST, T.MCAST, T.MCAST], max_pkts=9))
+    pool = [T.TCP, T.UDP, T.WSRTSP, T.WSP, T.HTTPFLV, T.WSFLV, T.MCAST]
+    for _ in range(120 if thorough else 4):      # mixed transports, one after the other
+        out.append(T.gen_cycle_case(rng, False, [rng.choice(pool) for _ in range(rng.choice((2, 3)))], max_pkts=10))
+    return out
+
 def transport_release(ck):
     rng = ck.rng
     n = 900 if ck.thorough else 70
     pool = [T.TCP, T.TCP, T.UDP, T.WSRTSP, T.WSP, T.HTTPFLV, T.WSFLV, T.MCAST]
     # 40%: a second publisher registers the path while the first client is attached to the old stream
     # (which lives on while it has consumers); later clients attach to the new stream; the first one leaves
-    cases = [T.gen_case(rng, False, pool, max_pkts=10, allow_big=False, replace_p=0.4) for _ in range(n)]
+    cases = cycle_cases(rng, ck.thorough)
+    cases += [T.gen_case(rng, False, pool, max_pkts=10, allow_big=False, replace_p=0.4) for _ in range(n - len(cases) // 2)]
     ck.stream("transport-release", cases, None, "C03_transports", "C03_wire_ok", compare=False,
               nontrivial=lambda c: len(c[2]) >= 2 or any(e[0] == 2 for e in c[3]),
               sig=lambda c, e, o: "transport-release", timeout=1500)
@@ -188,3 +205,85 @@ def transport_release(ck):
     registry_ends(ck)
 
 RELEASE_RULE = RELEASE_RULE + " (5) stream ends through the registry: " + REG_RULE
+
+
+# ---------------------------------------------------------------- the multicast proxy through repeated use cycles
+# (appended block; model coq/Model/C03Mcast.v, theorems C03_mcast_* in Properties/C03.v, wire wrappers
+#  coq/Run/RunC03Mcast.v, harness command C03_mcast = harness/transports/mcast.go)
+MJ, ML, MP, ME, MX = 0, 1, 2, 3, 4
+
+MCAST_RULE = ("histories of join / leave / publish / stream-end / delayed-goroutine-exit events on the multicast proxy of a real "
+              "RECORD stream, driven by real RTSP sessions (SETUP multicast + PLAY, TEARDOWN or dropped connection) with "
+              "2-5 sessions and any number of start/stop cycles of the proxy on the same live stream: members overlapping "
+              "or one after the other, the last member leaving (count back to 0) and a later join, the stream ending with "
+              "members of a later cycle attached; the proxy's delivery goroutines are stepped through consume.pop / consume.got "
+              "so that the deferred Close of a stopped cycle runs before or after the next cycle starts; after every event: "
+              "stream.ConsumerCount, socket held, members on record (rtsp.VerifMulticastState), which sessions have seen their "
+              "connection end, packets received per session; the oracle ok_mcast demands the release specification's "
+              "observations exactly (C03_mcast_model_passes).")
+
+def mcast_witnesses():
+    return [
+        [2, [[MJ, 0], [MP], [ML, 0, 0], [MX], [MJ, 1], [MP], [ML, 1, 1], [MX]]],        # second cycle ends by the last leave
+        [2, [[MJ, 0], [ML, 0, 1], [MX], [MJ, 1], [MP], [ME]]],                          # second cycle ends with the stream
+        [2, [[MJ, 0], [MJ, 1], [MP], [ML, 0, 0], [MP], [ML, 1, 0], [MX]]],              # two members, the starter leaves first
+        [2, [[MJ, 0], [MJ, 1], [MP], [ME]]],                                            # two members, stream ends
+        [2, [[MJ, 0], [ML, 0, 1], [MJ, 1], [MX], [MP], [ML, 1, 0], [MX]]],              # stale Close of cycle 1 after cycle 2 started
+        [3, [[MJ, 0], [ML, 0, 0], [MJ, 1], [ML, 1, 0], [MJ, 2], [MX], [MX], [MP], [ME]]],   # two stale Closes
+        [5, [[MJ, 0], [MP], [MJ, 1], [MP], [ML, 0, 0], [MP], [ML, 1, 1], [MJ, 2], [MX], [MP], [ML, 2, 0], [MX],
+             [MJ, 3], [MJ, 4], [MP], [ME]]],                                            # Coq's non-vacuity example
+    ]
+
+def mcast_rand_case(rng, max_n):
+    n = rng.randint(2, max_n)
+    fresh, members, pending, alive, ev = 0, [], 0, True, []
+    steps = rng.randint(4, 16)
+    prompt = rng.random() < 0.5           # the stopped cycle's goroutine exits at once / some time later
+    for _ in range(steps):
+        r = rng.random()
+        if pending and (prompt or r < 0.25):
+            ev.append([MX]); pending -= 1
+        elif fresh < n and (not members or r < 0.45) and r < 0.75:
+            ev.append([MJ, fresh]); members.append(fresh); fresh += 1
+        elif members and r < 0.8:
+            i = rng.choice(members); members.remove(i)
+            ev.append([ML, i, rng.choice([0, 1])])
+            if not members:
+                pending += 1
+        else:
+            ev.append([MP])
+    while pending and rng.random() < 0.7:
+        ev.append([MX]); pending -= 1
+    if rng.random() < 0.6:
+        ev.append([ME])
+    return [n, ev]
+
+def multicast_cycles(ck):
+    import vlib
+    rng = ck.rng
+    cases = mcast_witnesses() + [mcast_rand_case(rng, 6 if ck.thorough else 5) for _ in range(600 if ck.thorough else 30)]
+    try:
+        wf = vlib.run_driver("C03", "C03_mcast_wf", [vlib.vs(c) for c in cases])
+    except vlib.Broken as b:
+        ck.broken.append(b)
+        return
+    cases = [c for c, w in zip(cases, wf) if w == "1"]
+    def cycles(c):      # joins into an idle proxy
+        k, m = 0, 0
+        for e in c[1]:
+            if e[0] == MJ:
+                k += (m == 0); m += 1
+            elif e[0] == ML:
+                m -= 1
+            elif e[0] == ME:
+                m = 0
+        return k
+    ck.stream("multicast-cycles", cases, "C03_mcast_run", "C03_mcast", "C03_mcast_ok",
+              nontrivial=lambda c: cycles(c) >= 2, sig=lambda c, e, o: "multicast-cycles", timeout=1500)
+
+_transport_release_before_mcast = transport_release
+def transport_release(ck):
+    _transport_release_before_mcast(ck)
+    multicast_cycles(ck)
+
+RELEASE_RULE = RELEASE_RULE + " (6) the multicast proxy through repeated use cycles: " + MCAST_RULE
